@@ -5,7 +5,7 @@ import torch
 from hypothesis import strategies as st
 
 from torchjd import backward
-from vlib import jdcheck, programs as P, relations as rel
+from vlib import jdcheck, large, programs as P, relations as rel
 from vlib.matrices import eps_of
 from vlib.runner import Outcome, Part
 
@@ -39,7 +39,7 @@ LEVEL_TEXT = (
 LEVEL_NOTE = "Trusted: NumPy, torch tensor ops used to build the graphs, the IR shape inference shared by both executors."
 TECHNIQUE = "property-based testing (Hypothesis) over generated programs with a reference-model (dual-number) oracle and a metamorphic input-order relation"
 REQUIRED_CLASSES = {"equal-numel-inputs": 1, "reused-leaf": 1, "unused-input": 1, "rank>=2-output": 1, "0d-input": 1,
-                    "chunked": 1, "inputs=None": 1, "pre-existing-grad": 1}
+                    "chunked": 1, "inputs=None": 1, "pre-existing-grad": 1, "unwrapped:hook": 1, "unwrapped:subclass": 1, "leaf-among-tensors": 1}
 
 
 @st.composite
@@ -59,6 +59,12 @@ def _case(draw, big=False):
     else:
         k = [len(rg), len(rg), int(rng.integers(1, len(rg) + 1))][int(rng.integers(0, 3))]
         inputs = [rg[i] for i in rng.permutation(len(rg))][:k]
+    if inputs is not None and rng.integers(0, 6) == 0:
+        # one of `tensors` is itself a leaf requiring grad (the identity program; accepted with explicit `inputs`):
+        # its rows are rows of the identity w.r.t. itself and zeros elsewhere
+        prog = dict(prog, outputs=list(prog["outputs"]))
+        prog["outputs"].insert(int(rng.integers(0, len(prog["outputs"]) + 1)), ["l", int(rg[int(rng.integers(0, len(rg)))])])
+        m = sum(P.numel(shapes[tuple(r)]) for r in prog["outputs"])
     chunks = [None, None, 1] + list(range(1, m + 3))
     return {
         "prog": prog,
@@ -71,6 +77,9 @@ def _case(draw, big=False):
         # a third of the cases pass the aggregator itself (no recording wrapper), so that code paths keyed on the
         # aggregator's type are exercised; the expectation is then A(oracle Jacobian), sliced per input
         "unwrapped": bool(rng.integers(0, 3) == 0),
+        # ... and of those, some carry a user forward hook that rewrites the output, or are an instance of a user
+        # subclass overriding forward(): `aggregator(J)` - the nn.Module call - is what the property names
+        "custom": ["plain", "plain", "hook", "subclass"][int(rng.integers(0, 4))],
         "containers": [["list", "tuple", "tensor"][int(rng.integers(0, 3))], ["list", "tuple", "generator", "set", "dict-keys"][int(rng.integers(0, 5))]],
     }
 
@@ -79,7 +88,11 @@ def parts(tier):
     n = 20_000 if tier == "quick" else 600_000
     n_big = 1_500 if tier == "quick" else 60_000
     return [Part("generated", "given", n=n, strategy=_case),
-            Part("larger_programs", "given", n=n_big, strategy=lambda: _case(big=True))]
+            Part("larger_programs", "given", n=n_big, strategy=lambda: _case(big=True)),
+            # Jacobians of 10^5 .. 10^7 entries (closed-form oracle): size-dependent paths in the pipeline
+            Part("large_inputs", "given", n=32 if tier == "quick" else 480, strategy=lambda: large.cases("backward")),
+            # hundreds of rows in one batched differentiation
+            Part("many_rows", "given", n=32 if tier == "quick" else 480, strategy=lambda: large.cases("backward", tall=True))]
 
 
 def _features(prog, inputs, shapes, dual):
@@ -104,12 +117,21 @@ def _features(prog, inputs, shapes, dual):
     return f
 
 
-def _call(prog, inputs, spec, chunk, pre, containers=("list", "list"), unwrapped=False):
+def _customise(agg, custom):
+    if custom == "hook":
+        agg.register_forward_hook(lambda _mod, _args, o: o * 2.0)
+    elif custom == "subclass":
+        base = type(agg)
+        agg.__class__ = type("User" + base.__name__, (base,), {"forward": lambda self, M, _b=base: torch.tanh(_b.forward(self, M))})
+    return agg
+
+
+def _call(prog, inputs, spec, chunk, pre, containers=("list", "list"), unwrapped=False, custom="plain"):
     g = P.TorchGraph(prog)
     before = jdcheck.set_pre_grads(g.leaves, pre)
     rec = jdcheck.make_recording(spec, prog["dtype"])
     if unwrapped:
-        rec = rec.inner
+        rec = _customise(rec.inner, custom)
     tensors = [g.get(r) for r in prog["outputs"]]
     if containers[0] == "tuple":
         tensors = tuple(tensors)
@@ -128,7 +150,7 @@ def _call(prog, inputs, spec, chunk, pre, containers=("list", "list"), unwrapped
 def _check_unwrapped(out, case, prog, spec, dtype, dual, g, before, agg, expected_inputs, m, feats):
     """No recording wrapper: the increments must equal A(oracle Jacobian) sliced per input (A is column-equivariant,
     so the slices do not depend on the unknown internal ordering)."""
-    out.cls("unwrapped-aggregator")
+    out.cls("unwrapped-aggregator", "unwrapped:" + case.get("custom", "plain"))
     blocks = jdcheck.oracle_rows(dual, prog, prog["outputs"], expected_inputs)
     if not expected_inputs:
         return out
@@ -140,6 +162,7 @@ def _check_unwrapped(out, case, prog, spec, dtype, dual, g, before, agg, expecte
     x = agg(Jt).double().numpy()
     wn = rel.weights_norm(agg, Jt) if spec["name"] != "TrimmedMean" else 1.0
     tol = rel.base_tolerance(spec, dtype, Jfull, wn, float(np.linalg.norm(x))) * 4 + jdcheck.deriv_tol(dtype, dual.max_abs) * max(1.0, wn) * m
+    tol *= 2.0 if case.get("custom", "plain") == "hook" else 1.0  # the hook doubles the output (tanh is 1-Lipschitz)
     off = 0
     for i in expected_inputs:
         k = blocks[i].shape[1]
@@ -160,6 +183,8 @@ def _check_unwrapped(out, case, prog, spec, dtype, dual, g, before, agg, expecte
 
 def run_case(case) -> Outcome:
     out = Outcome()
+    if case.get("kind") == "large":
+        return large.run(case, out)
     prog, spec, dtype = case["prog"], case["agg"], case["prog"]["dtype"]
     dual = P.run_dual(prog)
     if not jdcheck.scale_ok(dtype, dual.max_abs):
@@ -176,9 +201,11 @@ def run_case(case) -> Outcome:
         out.cls("pre-existing-grad")
     feats = _features(prog, expected_inputs, shapes, dual)
     out.cls(*feats)
+    if any(r[0] == "l" for r in prog["outputs"]):
+        out.cls("leaf-among-tensors")
     unwrapped = bool(case.get("unwrapped")) and spec["name"] in ("Mean", "Sum", "Constant", "UPGrad", "DualProj", "TrimmedMean")
     try:
-        g, before, rec = _call(prog, inputs, spec, case["chunk"], case["pre"], case.get("containers", ("list", "list")), unwrapped)
+        g, before, rec = _call(prog, inputs, spec, case["chunk"], case["pre"], case.get("containers", ("list", "list")), unwrapped, case.get("custom", "plain"))
     except Exception as e:  # noqa: BLE001
         out.check(False, f"backward-raises:{type(e).__name__}", str(e)[:300])
         return out
